@@ -74,3 +74,58 @@ def switch_run(res, name, K, switch, expect, invariants=INVARIANTS, properties=P
     K2[switch] = False
     res.model_check_py('World', name + '_asimpl_' + switch, K2, invariants=invariants, properties=properties,
                        expect_violation=expect, count=False)
+
+
+def trace_validate(res, name, K, n_traces, n_calls, invariants=None):
+    """Pipeline B: random histories over larger pools executed on the real World, recorded, validated by TLC."""
+    import copy
+    import os
+    from .. import tracecheck, record_world, tla
+    desper = common.import_desper()
+    traces = record_world.record(desper, K, res.seed, n_traces, n_calls)
+    # constants go into a generated module, as in model_check_py
+    gen = 'WorldTrace_%s' % name
+    defs, consts, ov = [], {}, {}
+    for k, v in K.items():
+        if isinstance(v, (bool, int)):
+            consts[k] = tla.to_tla(v)
+        else:
+            defs.append('K_%s == %s' % (k, tla.to_tla(v)))
+            ov[k] = 'K_' + k
+    with open(os.path.join(res.specdir, gen + '.tla'), 'w') as f:
+        f.write('---- MODULE %s ----\nEXTENDS WorldTrace\n%s\n====\n' % (gen, '\n'.join(defs)))
+    inv = invariants or [i for i in INVARIANTS]
+    rej = tracecheck.validate(res, gen, name, traces, consts, overrides=ov, invariants=inv)
+    res.traces += len(traces) - len(rej)
+    res.cov.setdefault('trace_validation', {})[name] = {'traces': len(traces), 'events': sum(len(t['events']) for t in traces),
+                                                        'accepted': len(traces) - len(rej), 'rejected': len(rej)}
+    for idx, at in rej[:5]:
+        t = traces[idx] if idx >= 0 else None
+        ev = t['events'][at] if t and isinstance(at, int) and at < len(t['events']) else None
+        res.violation('recorded execution of World not explained by World.tla: trace %d, event %s %s' % (
+            idx, at, (ev or {}).get('op')), {'matched_events': at, 'next_event': ev,
+                                             'history': [[e['op'], e['a1'], e['a2']] for e in (t['events'][:at + 1] if t and isinstance(at, int) else [])]})
+    if traces and traces[0]['events']:
+        res.sample({'recorded_trace_first_events': [[e['op'], e['a1'], e['a2'], e['ret']] for e in traces[0]['events'][:8]]})
+    bad = copy.deepcopy(traces[:1])
+    k = next((i for i, e in enumerate(bad[0]['events']) if e['entities']), None)
+    if k is not None:
+        bad[0]['events'][k]['entities'] = bad[0]['events'][k]['entities'][:-1]
+        r2 = tracecheck.validate(res, gen, name + '-corrupted', bad, consts, overrides=ov)
+        res.cov['trace_validation'][name]['corrupted_trace_rejected_at_event'] = r2[0][1] if r2 else None
+        if not (len(r2) == 1 and r2[0][1] == k):
+            raise common.MachineryError('trace validation accepted a corrupted World trace: %r (corrupted event %d)' % (r2, k))
+
+
+BIG_COMPS = {'c1': ('A', ('on_add', 'on_remove')), 'c2': ('A', ('on_add',)), 'c3': ('B', ('on_remove',)), 'c4': ('B', ()),
+             'c5': ('C', ('on_add', 'on_remove')), 'c6': ('D', ('on_add', 'on_remove')), 'c7': ('D', ()), 'c8': ('X', ('on_remove',)),
+             'c9': ('A', ()), 'c10': ('C', ())}
+BIG_PROCS = ({'p1': ('P1', ('on_add', 'on_remove')), 'p1b': ('P1', ()), 'p2': ('P2', ('on_remove',)), 'q': ('Q', ('on_add',)), 'r': ('R', ())},
+             {'P1': ((), 0), 'P2': (('P1',), 0), 'Q': ((), 5), 'R': ((), -2)})
+
+
+def big(acts, **kw):
+    K = base(Acts=set(acts), Ids=set(range(1, 9)) | {101, 102}, MaxAuto=60, MaxQ=1000, Prios={-3, -1, 0, 2, 5}, Dts={0, 1, 3},
+             **comps(BIG_COMPS), **procs(*BIG_PROCS))
+    K.update(kw)
+    return K
